@@ -480,7 +480,6 @@ where
     U: DataI,
     V: DataI,
 {
-    let corrupt_oracle = std::env::var("DVERIF_C13_SELFTEST").ok();
     // 1. serialise through both entry points
     let s = match guard(|| serde_json::to_string(&*dt).map_err(|e| e.to_string())) {
         Ok(Ok(s)) => s,
@@ -529,23 +528,7 @@ where
     out.count("roundtrip/loaded");
     // 3. key-free structural equality
     let mo = RefModel::from_dt(dt);
-    let mut mc = RefModel::from_dt(&copy);
-    match corrupt_oracle.as_deref() {
-        Some("vertex") if !mc.verts.is_empty() => mc.verts[0].p[0] += 1.0,
-        Some("slot") if !mc.cells.is_empty() => mc.cells[0].v.swap(0, 1),
-        Some("nbr") => {
-            for c in mc.cells.iter_mut() {
-                if let Some(nb) = c.nb.as_mut() {
-                    if let Some(x) = nb.iter_mut().find(|x| x.is_some()) {
-                        *x = None;
-                        break;
-                    }
-                }
-            }
-        }
-        Some("celldata") if !mc.cells.is_empty() => mc.cells[0].data = Some(-77),
-        _ => {}
-    }
+    let mc = RefModel::from_dt(&copy);
     let (so, sc) = (shape(&mo), shape(&mc));
     let diffs = shape_diff(&so, &sc);
     // a vertex-table difference that consists only of coordinates which a bare f64 does not survive
@@ -1233,7 +1216,6 @@ fn corrupted_documents<const D: usize>(ctx: &Ctx, out: &mut Out, cs: u64, text: 
         out.violation(P, "roundtrip/not-json", "the library's document is not valid JSON".into(), base.clone());
         return;
     };
-    let force_inconsistent = std::env::var("DVERIF_C13_SELFTEST").ok().as_deref() == Some("corrupt");
     for i in 0..n_docs {
         if ctx.elapsed() > ctx.budget_s * 1.3 {
             break;
@@ -1281,10 +1263,7 @@ fn corrupted_documents<const D: usize>(ctx: &Ctx, out: &mut Out, cs: u64, text: 
                         out.count(&format!("corrupt/{}/loaded-then-panicked-on-read", kind));
                         out.panic(P, &pi, &format!("reading / validating a Tds loaded from a corrupted document ({})", kind), mk_rp(&bad));
                     }
-                    Ok((mut fails, lib, nv, nc)) => {
-                        if force_inconsistent && fails.is_empty() {
-                            fails.push("SELFTEST forced failure".into());
-                        }
+                    Ok((fails, lib, nv, nc)) => {
                         if fails.is_empty() {
                             out.count(&format!("corrupt/{}/loaded-consistent", kind));
                         } else {
